@@ -21,7 +21,6 @@ type Frame struct {
 	contract *FuncContract
 	top      bool
 	rets     []retEdge
-	defers   []deferred
 	loops    map[*ssa.BasicBlock]*loopInfo
 	order    []*ssa.BasicBlock
 	results  []Val // at a return: current result values (for ensures)
@@ -35,6 +34,7 @@ type retEdge struct {
 }
 
 type deferred struct {
+	fr   *Frame
 	call *ssa.CallCommon
 	fn   Val
 	args []Val
@@ -215,15 +215,35 @@ type outEdge struct {
 	st *State
 }
 
-func (e *Engine) enterLoop(fr *Frame, li *loopInfo, st *State) *State {
-	var lc *LoopContract
+// loopClauses collects the invariants and variant for a loop: from the function's
+// own contract and, for inlined frames, from "loop Callee.N:" clauses of its callers.
+func (e *Engine) loopClauses(fr *Frame, li *loopInfo) (invs []Clause, decr []Clause) {
 	if fr.contract != nil {
-		lc = fr.contract.Loops[li.ordinal]
+		if lc := fr.contract.Loops[li.ordinal]; lc != nil {
+			invs = append(invs, lc.Invariants...)
+			decr = append(decr, lc.Decreases...)
+		}
 	}
+	key := fmt.Sprintf("%s.%d", fr.fn.Name(), li.ordinal)
+	for a := fr.parent; a != nil; a = a.parent {
+		if a.contract != nil && a.contract.InlLoops != nil {
+			if lc := a.contract.InlLoops[key]; lc != nil {
+				invs = append(invs, lc.Invariants...)
+				if len(decr) == 0 {
+					decr = append(decr, lc.Decreases...)
+				}
+			}
+		}
+	}
+	return
+}
+
+func (e *Engine) enterLoop(fr *Frame, li *loopInfo, st *State) *State {
+	invs, decr := e.loopClauses(fr, li)
 	li.pre = st.clone()
 	// invariants hold on entry
-	if lc != nil && e.dry == 0 {
-		for i, inv := range lc.Invariants {
+	if e.dry == 0 {
+		for i, inv := range invs {
 			g := e.evalBool(inv.Expr, e.envAt(fr, st, li))
 			e.oblige(st, fr.label+fmt.Sprintf("inv-entry/%d.%d", li.ordinal, i+1), g, inv.Pos, "loop invariant holds on entry: "+inv.Src, inv.Tags)
 		}
@@ -234,10 +254,8 @@ func (e *Engine) enterLoop(fr *Frame, li *loopInfo, st *State) *State {
 		e.recorders = append(e.recorders, ws)
 		e.dry++
 		saved := fr.rets
-		savedDefers := fr.defers
 		e.runRegion(fr, li.blocks, li.header, from.clone(), true)
 		fr.rets = saved
-		fr.defers = savedDefers
 		e.dry--
 		e.recorders = e.recorders[:len(e.recorders)-1]
 		return ws
@@ -270,15 +288,13 @@ func (e *Engine) enterLoop(fr *Frame, li *loopInfo, st *State) *State {
 		e.havoc(scratch, coarse, "dry")
 		e.dry--
 		ws2 := dry(scratch)
-		for k, hw := range ws2.heap {
+		for _, hw := range ws2.heap {
 			for r := range hw.refs {
 				if maxID(r) > mark {
 					hw.whole = true
 				}
 			}
-			_ = k
 		}
-		// cells/globals written are the union of both passes
 		for c := range ws.cells {
 			ws2.cells[c] = true
 		}
@@ -298,16 +314,14 @@ func (e *Engine) enterLoop(fr *Frame, li *loopInfo, st *State) *State {
 	h := st.clone()
 	e.havoc(h, ws, fmt.Sprintf("L%d", li.ordinal))
 	e.rangeLoopFacts(fr, li, h)
-	if lc != nil {
-		for _, inv := range lc.Invariants {
-			g := e.evalBool(inv.Expr, e.envAt(fr, h, li))
-			e.ctx.Assume(implies(h.pc, g))
-		}
-		li.variant = nil
-		for _, d := range lc.Decreases {
-			v := e.evalInt(d.Expr, e.envAt(fr, h, li))
-			li.variant = append(li.variant, e.ctx.Define("variant", "Int", v))
-		}
+	for _, inv := range invs {
+		g := e.evalBool(inv.Expr, e.envAt(fr, h, li))
+		e.ctx.Assume(implies(h.pc, g))
+	}
+	li.variant = nil
+	for _, d := range decr {
+		v := e.evalInt(d.Expr, e.envAt(fr, h, li))
+		li.variant = append(li.variant, e.ctx.Define("variant", "Int", v))
 	}
 	li.head = h.clone()
 	return h
@@ -346,21 +360,18 @@ func (e *Engine) rangeLoopFacts(fr *Frame, li *loopInfo, h *State) {
 }
 
 func (e *Engine) closeLoop(fr *Frame, li *loopInfo, st *State) {
-	if e.dry > 0 || fr.contract == nil {
+	if e.dry > 0 {
 		return
 	}
-	lc := fr.contract.Loops[li.ordinal]
-	if lc == nil {
-		return
-	}
-	for i, inv := range lc.Invariants {
+	invs, decr := e.loopClauses(fr, li)
+	for i, inv := range invs {
 		g := e.evalBool(inv.Expr, e.envAt(fr, st, li))
 		e.oblige(st, fr.label+fmt.Sprintf("inv-preserved/%d.%d", li.ordinal, i+1), g, inv.Pos, "loop invariant preserved: "+inv.Src, inv.Tags)
 	}
-	if len(lc.Decreases) > 0 {
+	if len(decr) > 0 && len(li.variant) == len(decr) {
 		// lexicographic decrease, each component bounded below by 0
 		var news []string
-		for _, d := range lc.Decreases {
+		for _, d := range decr {
 			news = append(news, e.evalInt(d.Expr, e.envAt(fr, st, li)))
 		}
 		var disj []string
@@ -369,7 +380,7 @@ func (e *Engine) closeLoop(fr *Frame, li *loopInfo, st *State) {
 			disj = append(disj, and(prefixEq, sx("<", news[i], li.variant[i]), sx("<=", "0", li.variant[i])))
 			prefixEq = and(prefixEq, eq(news[i], li.variant[i]))
 		}
-		e.oblige(st, fr.label+fmt.Sprintf("variant/%d", li.ordinal), or(disj...), lc.Decreases[0].Pos, "loop variant decreases: "+lc.Decreases[0].Src, lc.Decreases[0].Tags)
+		e.oblige(st, fr.label+fmt.Sprintf("variant/%d", li.ordinal), or(disj...), decr[0].Pos, "loop variant decreases: "+decr[0].Src, decr[0].Tags)
 	}
 }
 
@@ -644,14 +655,25 @@ func (e *Engine) execInstr(fr *Frame, st *State, ins ssa.Instruction) {
 		for _, a := range ins.Call.Args {
 			d.args = append(d.args, e.val(fr, a))
 		}
-		if e.blockConditional(fr, ins.Block()) {
-			unsup("conditional defer")
+		for _, li := range fr.loops {
+			if li.blocks[ins.Block()] {
+				unsup("defer inside a loop")
+			}
 		}
-		fr.defers = append(fr.defers, d)
+		d.fr = fr
+		st.defers = append(append([]*deferred(nil), st.defers...), &d)
 	case *ssa.RunDefers:
-		for i := len(fr.defers) - 1; i >= 0; i-- {
-			d := fr.defers[i]
-			e.execDeferred(fr, st, d, e.posOf(fr, ins.Pos()))
+		var mine, rest []*deferred
+		for _, d := range st.defers {
+			if d.fr == fr {
+				mine = append(mine, d)
+			} else {
+				rest = append(rest, d)
+			}
+		}
+		st.defers = rest
+		for i := len(mine) - 1; i >= 0; i-- {
+			e.execDeferred(fr, st, *mine[i], e.posOf(fr, ins.Pos()))
 		}
 	case *ssa.DebugRef:
 	case *ssa.Range:
@@ -669,26 +691,6 @@ func (e *Engine) execInstr(fr *Frame, st *State, ins ssa.Instruction) {
 	default:
 		unsup("instruction %T", ins)
 	}
-}
-
-// blockConditional reports whether b does not dominate every return block or lies in a loop.
-func (e *Engine) blockConditional(fr *Frame, b *ssa.BasicBlock) bool {
-	for _, li := range fr.loops {
-		if li.blocks[b] {
-			return true
-		}
-	}
-	for _, x := range fr.fn.Blocks {
-		if len(x.Instrs) == 0 {
-			continue
-		}
-		for _, ins := range x.Instrs {
-			if _, ok := ins.(*ssa.RunDefers); ok && !b.Dominates(x) {
-				return true
-			}
-		}
-	}
-	return false
 }
 
 func (e *Engine) execAlloc(fr *Frame, st *State, ins *ssa.Alloc) {
@@ -901,6 +903,9 @@ func (e *Engine) indexAddr(fr *Frame, st *State, ins *ssa.IndexAddr) Val {
 		e.nilCheck(fr, st, x, pos, "array index")
 		e.oblige(st, "safety/idx", and(sx("<=", "0", idx), sx("<", idx, num(at.Len()))), pos, "array index in range", nil)
 		ref := e.arrayRefOf(x, ins.X.Type())
+		if x.K == KPtr && x.P.K == PGlobal {
+			e.assumeGlobalInv(fr, st, x.P.Global)
+		}
 		return Val{K: KPtr, P: &Ptr{K: PElem, Ref: ref, Idx: idx, Elem: at.Elem(), Typ: at.Elem()}}
 	}
 	unsup("indexaddr on %s", ins.X.Type())
@@ -1062,6 +1067,7 @@ func (e *Engine) sentinelFacts(g *ssa.Global, v Val) Val {
 		return v
 	}
 	kind := ""
+	objTag := 0
 	for _, b := range init.Blocks {
 		for _, ins := range b.Instrs {
 			s, ok := ins.(*ssa.Store)
@@ -1078,7 +1084,8 @@ func (e *Engine) sentinelFacts(g *ssa.Global, v Val) Val {
 				}
 			case *ssa.MakeInterface:
 				if a, ok := x.X.(*ssa.Alloc); ok && a.Heap {
-					kind = "new"
+					kind = "obj"
+					objTag = typeTag(x.X.Type())
 				}
 			}
 		}
@@ -1088,5 +1095,37 @@ func (e *Engine) sentinelFacts(g *ssa.Global, v Val) Val {
 	}
 	e.note("package-level error sentinels are non-nil, pairwise distinct and never reassigned")
 	e.ctx.Assume(not(eq(v.Fs[0].T, "0")))
-	return Val{K: KIface, Typ: v.Typ, Fs: []Val{v.Fs[0], intv(e.globalRef(g))}}
+	res := Val{K: KIface, Typ: v.Typ, Fs: []Val{v.Fs[0], intv(e.globalRef(g))}}
+	if kind == "obj" {
+		res.Fs[0] = intv(num(int64(objTag)))
+		return res
+	}
+	if e.prog != nil {
+		// created by errors.New / fmt.Errorf without %w of a malformed error, or a fresh object of another type
+		defer func() { recover() }()
+		e.ctx.Assume(not(e.malformedTerm(res)))
+	}
+	return res
+}
+
+// assumeGlobalInv adds the declared invariants of an immutable package-level
+// variable (proved separately against the package initialiser) in the current state.
+func (e *Engine) assumeGlobalInv(fr *Frame, st *State, g *ssa.Global) {
+	if g.Pkg == nil || e.mutableGlobal(g) {
+		return
+	}
+	for i, gi := range e.contracts.Globals {
+		if gi.Pkg != g.Pkg.Pkg.Path() || gi.Name != g.Name() {
+			continue
+		}
+		env := &Env{e: e, fr: nil, st: st, bound: map[string]Val{}, names: map[string]Val{}, pkg: g.Pkg.Pkg, curFunc: "global " + gi.Name}
+		t := e.evalBool(gi.Expr, env)
+		key := fmt.Sprintf("ginv#%d#%s", i, t)
+		if e.ctx.decls[key] {
+			continue
+		}
+		e.ctx.decls[key] = true
+		e.ctx.Assume(t)
+		e.note("invariant of immutable global " + gi.Name + " (proved against the package initialiser)")
+	}
 }
